@@ -435,6 +435,6 @@ func cliProperty(id string, history bool, rule string) {
 }
 
 func init() {
-	cliProperty("C17", false, "rapid-drawn modules of 2-5 packages of kinds {generates (several content variants, optional tag-guarded injector file), fails analysis (missing, unused, cycle, multiple bindings, bad signature, one good + one broken injector), no injectors, no injectors but an ill-formed set variable} with 1-4 steps drawn from {gen, default-command form, diff, check, show, damage an output file, delete it} under options {-header_file valid/unreadable, -output_file_prefix, -tags} and scopes {./..., subset, one package}. Model: gen exits 0 iff no package in scope fails and writes exactly <prefix>wire_gen.go of the generating packages in scope with the bytes an isolated generation yields, everything else in the tree byte-identical (sha256 snapshot before/after); diff/check/show change nothing; diff exits 2 on failure or unusable header, else 1 if some on-disk output differs or is absent, else 0; check/show exit 1 iff a package in scope has a failing injector or ill-formed set. evaluations = wire invocations checked. Non-trivial = invocation mixing failing and succeeding packages or using an option; distinct by case hash.")
+	cliProperty("C17", false, "rapid-drawn modules of 2-5 packages of kinds {generates (several content variants, optional tag-guarded injector file), fails analysis (missing, unused, cycle, multiple bindings, bad signature, one good + one broken injector), no injectors, no injectors but an ill-formed set variable, no injectors but a blank import} with 1-4 steps drawn from {gen, default-command form, diff, check, show, damage an output file, delete it} under options {-header_file valid / unreadable / readable but not Go, -output_file_prefix, -tags} and scopes {./..., subset, one package}. Model: gen exits 0 iff no package in scope fails and writes exactly <prefix>wire_gen.go of the generating packages in scope with the bytes an isolated generation yields, everything else in the tree byte-identical (sha256 snapshot before/after); diff/check/show change nothing; diff exits 2 on failure or unusable header (for a readable non-Go header only the statuses are modelled: gen non-zero, diff 2, and the history ends there because the files written no longer carry the constraint), else 1 if some on-disk output differs or is absent, else 0; check/show exit 1 iff a package in scope has a failing injector or ill-formed set. evaluations = wire invocations checked. Non-trivial = invocation mixing failing and succeeding packages or using an option; distinct by case hash.")
 	cliProperty("C18", true, "rapid-drawn histories of 4-14 steps over one or two packages: switch the sources to another variant (generating variants of different output size, rejected variants), gen, diff, check, delete the output, replace the output by a stale / non-compiling / garbage / CRLF / newline-stripped / longer / shorter / empty / package-clause-less file that still carries the !wireinject constraint. Invariant after every step (model of the expected on-disk bytes): a successful gen leaves exactly the file a pristine checkout of the current sources gets, a failed gen leaves the tree untouched, gen is idempotent, diff exits 0 right after a successful gen and otherwise 0/1/2 per the model; nothing but the output file ever changes. evaluations = wire invocations checked. Non-trivial = history with >=2 edits/damages; distinct by case hash.")
 }
